@@ -227,6 +227,13 @@ theorem C06_history {P β : Type} (step : P → β → P) (p0 : P) (bs : List β
    fun t ht => ⟨foldTrace_getElem? step p0 bs t ht, foldTrace_getElem?_eq_run step p0 bs t ht⟩,
    foldTrace_getLast step p0 bs⟩
 
+/-- the driver materialises the (function-valued) parameter records into arrays after every update; any such
+normalisation that is extensionally the identity leaves the trace unchanged, so what the driver computes IS `foldTrace` -/
+theorem C06_trace_norm {P β : Type} (step : P → β → P) (norm : P → P) (hnorm : ∀ p, norm p = p) (p0 : P) (bs : List β) :
+    foldTrace (fun p b => norm (step p b)) p0 bs = foldTrace step p0 bs := by
+  have : (fun p b => norm (step p b)) = step := by funext p b; exact hnorm _
+  rw [this]
+
 /-- the run of the positive state (`runPos`, `C06_run_unfold`) is this fold with the constant learning rate -/
 theorem C06_runPos_fold (lr : ℝ) (am0 : RBM ℝ n h) (bs : List (PosBatch ℝ n)) :
     runPos lr am0 bs = foldRun updPos am0 (bs.map fun b => (lr, b)) := by
